@@ -69,7 +69,7 @@ def run(ctx):
     ctx.simgrid(["simgrid"])
     ctx.prove()
     drv = fw.build_harness("k2_comm", extra=C08.HARNESS_FLAGS)
-    n = ctx.n(800, 20000)
+    n = ctx.n(300, 10000)
     progs = list(CORPUS) + [gen_program(ctx.rng) for _ in range(n)]
     if ctx.replay:
         progs = [C08.decode_program(json.load(open(ctx.replay))["case"]["program"])]
